@@ -375,7 +375,6 @@ SumOver(S) == IF S = {} THEN 0
 CaseNo == (SumOver(DOMAIN layout) + 13 * Len(sp) + 5 * SeqNo(sp[1]) + (IF pmode THEN 3 ELSE 0)
            + 11 * SeqNo(FP(imp)) + (IF imp.init THEN 17 ELSE 0)) % 1000003
 
-SetToSeq(S) == CHOOSE s \in [1..Cardinality(S) -> S] : \A i, j \in 1..Cardinality(S) : i # j => s[i] # s[j]
 RECURSIVE Listify(_)
 Listify(S) == IF S = {} THEN <<>> ELSE LET x == CHOOSE y \in S : TRUE IN <<x>> \o Listify(S \ {x})
 
